@@ -230,4 +230,26 @@ DOC = {
              'as SPEC-DRIFT only).',
         technique='TLA+ codec spec + TLC model checking of the codec laws (QuoteCodecMC) + TLC trace validation of the real quote states and tokenizers',
     ),
+    'C05': dict(
+        level='TokenIterator.tla specifies a reused tokenizer as an iterator over fresh(x), the stream a newly constructed instance '
+              'produces (has-next changes nothing, next yields each element once in order, a new reader forgets everything); '
+              'TokenIteratorMC.tla model-checks these invariants over all interleavings of set-reader / has-next / next. Real instances '
+              'of every tokenizer are fed all ordered pairs of a pool (every multi-character symbol, every token class, unterminated '
+              'literals) with abandon points at every position, all interleavings of the three calls to a fixed depth, and random longer '
+              'histories under several option sets; TokenIteratorTrace.tla validates every call against the iterator. Reused parser, '
+              'calculator and template instances are compared with fresh ones step by step (events "reuse").',
+        note='Trusted: TLC, Json module, recorder. fresh(x) is itself an observation of the real code (a new instance), as the property '
+             'states; triples of inputs only in the thorough tier.',
+        technique='TLA+ iterator spec + TLC model checking of all call interleavings (TokenIteratorMC) + TLC trace validation of reused instances against fresh ones',
+    ),
+    'C02': dict(
+        level='ExprGrammar.tla defines the expression grammar as mutually recursive operators returning the post-order program or Rej, '
+              'independent of the parser\'s control flow. The real ExpressionParser receives every token sequence up to the bound over a '
+              'representative vocabulary and the full vocabulary (ParseTokens, and ParseString on the rendered text with the lexer\'s '
+              'actual output as the judged sequence) plus token-level mutations of generated sentences; ExprParseTrace.tla checks '
+              'accepted <=> RefParse # Rej, compiled program = RefParse, rejection carries an error code, a panic is neither.',
+        note='Trusted: TLC, Json module, recorder. Error codes/messages and positions are not prescribed; empty input is outside the '
+             'statement. The sign binds before the index (-a[1] = (-a)[1]) as the implementation does; the statement leaves that open.',
+        technique='TLA+ reference grammar (ExprGrammar.RefParse) + TLC trace validation of exhaustive token strings and mutated sentences',
+    ),
 }
